@@ -1,3 +1,112 @@
-From MV Require Import C10.Model.
+(* C10 — final statements (one lemma per property theorem) and non-vacuity examples.
+   The proofs live in ProofsIns / ProofsShell / ProofsHeap / ProofsMerge / ProofsQuick. *)
+From MV Require Export C10.Model C10.Arr C10.ProofsIns C10.ProofsShell C10.ProofsHeap C10.ProofsMerge C10.ProofsQuick.
+From Coq Require Export Permutation Sorted.
+
+(* side condition on the constant re-extracted from sort.c (coq/gen/Params_C10.v) *)
 Lemma cutoff_ok : 3 <= quick_sort_cutoff.
 Proof. unfold quick_sort_cutoff. lia. Qed.
+
+(* ---------------- sorts: total, sorted, permutation ---------------- *)
+
+Lemma insertion_sorted_l : forall kf a, Sorted (kle kf) (insertion_sort kf a).
+Proof. exact insertion_sorted. Qed.
+Lemma insertion_permutation_l : forall kf a, Permutation a (insertion_sort kf a).
+Proof. exact insertion_perm. Qed.
+
+Lemma shell_total_l : forall kf a, shell_sort kf a <> None.
+Proof. intros. destruct (shell_sort_ok kf a) as [p [E _]]. congruence. Qed.
+Lemma shell_sorted_l : forall kf a p, shell_sort kf a = Some p -> Sorted (kle kf) p.
+Proof. intros. destruct (shell_sort_ok kf a) as [p' [E [S _]]]. congruence. Qed.
+Lemma shell_permutation_l : forall kf a p, shell_sort kf a = Some p -> Permutation a p.
+Proof. intros. destruct (shell_sort_ok kf a) as [p' [E [_ P]]]. congruence. Qed.
+
+Lemma heap_sort_total_l : forall kf a, cap_is_valid (length a + 1) = true ->
+  exists p, heap_sort kf true a = Some (p, true).
+Proof. intros. destruct (heap_sort_ok kf a H) as [p [E _]]. eauto. Qed.
+Lemma heap_sort_sorted_l : forall kf a p, cap_is_valid (length a + 1) = true ->
+  heap_sort kf true a = Some (p, true) -> Sorted (kle kf) p.
+Proof. intros. destruct (heap_sort_ok kf a H) as [p' [E [S _]]]. congruence. Qed.
+Lemma heap_sort_permutation_l : forall kf a p, cap_is_valid (length a + 1) = true ->
+  heap_sort kf true a = Some (p, true) -> Permutation a p.
+Proof. intros. destruct (heap_sort_ok kf a H) as [p' [E [_ P]]]. congruence. Qed.
+
+Lemma merge_total_l : forall kf a, exists p, merge_sort kf true a = Some (p, true).
+Proof. intros. destruct (merge_sort_ok kf a) as [p [E _]]. eauto. Qed.
+Lemma merge_sorted_l : forall kf a p, merge_sort kf true a = Some (p, true) -> Sorted (kle kf) p.
+Proof. intros. destruct (merge_sort_ok kf a) as [p' [E [S _]]]. congruence. Qed.
+Lemma merge_permutation_l : forall kf a p, merge_sort kf true a = Some (p, true) -> Permutation a p.
+Proof. intros. destruct (merge_sort_ok kf a) as [p' [E [_ P]]]. congruence. Qed.
+
+(* for every cutoff >= 3; instantiated with the extracted constant below *)
+Lemma quick_total_c : forall cutoff, 3 <= cutoff -> forall kf a, quick_sort_c kf cutoff a <> None.
+Proof. intros. destruct (quick_sort_c_ok kf cutoff a H) as [p [E _]]. congruence. Qed.
+Lemma quick_total_l : forall kf a, quick_sort kf a <> None.
+Proof. intros. apply quick_total_c. exact cutoff_ok. Qed.
+Lemma quick_sorted_l : forall kf a p, quick_sort kf a = Some p -> Sorted (kle kf) p.
+Proof. intros. destruct (quick_sort_c_ok kf quick_sort_cutoff a cutoff_ok) as [p' [E [S _]]].
+  unfold quick_sort in H. congruence. Qed.
+Lemma quick_permutation_l : forall kf a p, quick_sort kf a = Some p -> Permutation a p.
+Proof. intros. destruct (quick_sort_c_ok kf quick_sort_cutoff a cutoff_ok) as [p' [E [_ P]]].
+  unfold quick_sort in H. congruence. Qed.
+
+(* ---------------- non-vacuity examples ---------------- *)
+
+(* element ids 0..5 with keys 2 0 2 1 0 2 (equal keys present) *)
+Definition ex_kf (id : nat) : Z := nth id [2; 0; 2; 1; 0; 2]%Z 9%Z.
+Definition ex_a : list nat := iota 6.
+
+Example ex_insertion : insertion_sort ex_kf ex_a = [1; 4; 3; 0; 2; 5].
+Proof. vm_compute. reflexivity. Qed.
+Example ex_shell : shell_sort ex_kf ex_a = Some [1; 4; 3; 2; 0; 5].   (* not stable *)
+Proof. vm_compute. reflexivity. Qed.
+Example ex_heap_sort : heap_sort ex_kf true ex_a = Some ([1; 4; 3; 0; 5; 2], true).
+Proof. vm_compute. reflexivity. Qed.
+Example ex_merge : merge_sort ex_kf true ex_a = Some ([1; 4; 3; 0; 2; 5], true).
+Proof. vm_compute. reflexivity. Qed.
+Example ex_merge_empty : merge_sort ex_kf true [] = Some ([], true).
+Proof. reflexivity. Qed.
+Example ex_quick_empty : quick_sort ex_kf [] = Some [].
+Proof. reflexivity. Qed.
+(* 14 elements: above the cutoff, so the partition path runs *)
+Definition ex_kf14 (id : nat) : Z := nth id [5; 3; 9; 1; 5; 0; 7; 3; 3; 8; 2; 5; 6; 1]%Z 0%Z.
+Example ex_quick : quick_sort ex_kf14 (iota 14) = Some [5; 13; 3; 10; 1; 8; 7; 11; 0; 4; 12; 6; 9; 2].
+Proof. vm_compute. reflexivity. Qed.
+Example ex_cap_valid : cap_is_valid (length ex_a + 1) = true.
+Proof. reflexivity. Qed.
+
+(* a heap of three entries (key ids 1 2 3 with keys 5 3 4) built by insert, then
+   the entry in the LAST slot removed *)
+Definition ex_hkf (id : nat) : Z := nth id [0; 5; 3; 4]%Z 0%Z.
+Definition ex_heap : option heap :=
+  match heap_init true 1 with
+  | Some h0 =>
+    match heap_insert ex_hkf true h0 1 11 with
+    | Some (h1, _) =>
+      match heap_insert ex_hkf true h1 2 12 with
+      | Some (h2, _) => match heap_insert ex_hkf true h2 3 13 with Some (h3, _) => Some h3 | None => None end
+      | None => None
+      end
+    | None => None
+    end
+  | None => None
+  end.
+Example ex_heap_built : ex_heap = Some (mkheap [(0, 0); (2, 12); (1, 11); (3, 13); (0, 0)]%nat 3 4).
+Proof. vm_compute. reflexivity. Qed.
+Example ex_heap_ok : heap_ok ex_hkf (mkheap [(0, 0); (2, 12); (1, 11); (3, 13); (0, 0)]%nat 3 4).
+Proof.
+  unfold heap_ok. cbn [nodes hsize hcap]. repeat split; try (simpl; lia).
+  intros i Hi. assert (i = 2 \/ i = 3) by lia. destruct H; subst; vm_compute; discriminate.
+Qed.
+Example ex_heap_remove_last :
+  heap_remove ex_hkf (mkheap [(0, 0); (2, 12); (1, 11); (3, 13); (0, 0)]%nat 3 4) 3 =
+  Some (mkheap [(0, 0); (2, 12); (1, 11); (0, 0); (0, 0)]%nat 2 4, Some (3, 13)%nat).
+Proof. vm_compute. reflexivity. Qed.
+Example ex_heap_remove_root :
+  heap_remove ex_hkf (mkheap [(0, 0); (2, 12); (1, 11); (3, 13); (0, 0)]%nat 3 4) 1 =
+  Some (mkheap [(0, 0); (3, 13); (1, 11); (3, 13); (0, 0)]%nat 2 4, Some (2, 12)%nat).
+Proof. vm_compute. reflexivity. Qed.
+Example ex_drain :
+  drain ex_hkf 3 (mkheap [(0, 0); (2, 12); (1, 11); (3, 13); (0, 0)]%nat 3 4) =
+  Some [(2, 12); (3, 13); (1, 11)]%nat.
+Proof. vm_compute. reflexivity. Qed.
